@@ -111,3 +111,34 @@ Theorem C05_schedule_correspondence_sound : forall c setup progs events seen_by 
     clients_ok cf seen_by 0 = -1 /\ disk_matches cf final = true.
 Proof. exact sched_check_sound. Qed.
 Print Assumptions C05_schedule_correspondence_sound.
+
+(* Iteration among writers (model/IterConc.v): `tb n` is the committed table the n-th statement of the iteration reads
+   (n = 0: SELECT MAX(rowid); n >= 1: the pages) -- every schedule of the other clients is such a sequence; each table in rowid order.
+   "The keys yielded are the keys of ONE committed state" is false (finding C05-F1 = C06-F5); what holds for every schedule: *)
+From Coq Require Import Sorted.
+From DC Require Import SqlOrderFacts IterConc IterConcFacts.
+
+(* ... every row yielded was read from a committed table *)
+Theorem C05_iteration_no_phantom : forall tb fuel r, (forall n, asc (tb n)) ->
+  In r (iter_among_writers fuel tb) -> exists m, (1 <= m)%nat /\ In r (tb m).
+Proof. exact iter_no_phantom. Qed.
+Print Assumptions C05_iteration_no_phantom.
+
+(* ... in strictly ascending rowid order: nothing is yielded twice *)
+Theorem C05_iteration_no_repeat : forall tb fuel, (forall n, asc (tb n)) -> asc (iter_among_writers fuel tb).
+Proof. exact iter_no_repeat. Qed.
+Print Assumptions C05_iteration_no_repeat.
+
+(* ... and a row that is there from the first statement to the last is yielded once the iteration has come to its end *)
+Theorem C05_iteration_stable : forall tb fuel r, (forall n, asc (tb n)) -> (forall n, In r (tb n)) -> 0 < rowid r ->
+  iter_done fuel tb = true -> In r (iter_among_writers fuel tb).
+Proof. exact iter_stable. Qed.
+Print Assumptions C05_iteration_stable.
+
+(* the witness of the finding: {a} when MAX(rowid) is read; another client stores b and deletes a; the page statement reads {b}:
+   the iteration ends having yielded nothing, and none of the committed states {a}, {a, b}, {b} is empty *)
+Theorem C05_iteration_one_state_refuted :
+  iter_done 3 torn_tables = true /\ keys_of (iter_among_writers 3 torn_tables) = [] /\
+  forallb (fun t => negb (Nat.eqb (length (keys_of t)) 0)) committed_states = true.
+Proof. exact iter_torn_witness. Qed.
+Print Assumptions C05_iteration_one_state_refuted.
